@@ -24,10 +24,15 @@ Wit == Witnesses[gw]
 GInit ==
     /\ gw \in 1..Len(Witnesses) /\ gp0 \in BOOLEAN /\ garg \in ColsSet
     /\ pane \in PaneSet
-    /\ (pane > 1 => garg = CHOOSE x \in ColsSet : TRUE)
     /\ cols = (IF pane > 1 THEN pane - 1 ELSE garg)
     /\ (gp0 => Wit.el >= 200 /\ Wit.size.s >= 0 /\ Wit.step.s > 0)
     /\ count \in CountSet /\ idx = 1 /\ name \in Names
+    \* the redraw prefix (tmux pane / earlier update) does not interact with the ladder: it is
+    \* combined with a few widths, names and witnesses only
+    /\ ((pane # 0 \/ gp0) => /\ garg \in {5, 30, 80}
+                              /\ count = (CHOOSE n \in CountSet : TRUE)
+                              /\ name \in {NameOf("ascii", 10), NameOf("cjk", 44)}
+                              /\ gw % 4 = 1)
     /\ pre = Zero /\ size = Wit.size
     /\ step = (IF gp0 THEN Zero ELSE FromInt(-1))
     /\ first = ~gp0 /\ hasLast = gp0 /\ pausing = FALSE
@@ -48,7 +53,7 @@ Sig ==
     <<outp.rung, outp.nf, outp.match, outp.bar, outp.cls, outp.pfx,
       IF ~outp.bar THEN "none" ELSE IF outp.full = 0 THEN "empty" ELSE IF outp.full = outp.total THEN "full" ELSE "part",
       RungAt(cols - 1) # outp.rung, RungAt(cols + 1) # outp.rung,
-      outp.pl, (cols + Seed) % 2>>
+      (cols + Seed) % 2>>
 
 Case == [w |-> Wit.id, cols |-> garg, pane |-> pane, count |-> count, name |-> name, pre0 |-> gp0,
          sig |-> Sig,
